@@ -638,6 +638,114 @@ def _degen_labels(c):
     return out
 
 
+# ----------------------------------------------------------------------------------------- (d) chains on grids of mixed magnitude
+@st.composite
+def chain_case(draw, tier="quick"):
+    dim = draw(st.sampled_from([2, 2, 3]))
+    shape = draw(st.sampled_from([[1, 2], [1, 3], [2, 2], [2, 3], [3, 1], [4], [2, 1, 2]]))
+    npos = int(np.prod(shape))
+    modes = ["general", "general", "general", "equal"] if dim == 2 else ["meeting", "meeting", "meeting", "skew"]
+    return {"dim": dim, "shape": shape, "pos": [{"v": [draw(C.ints(5)) for _ in range(4 * dim)], "mag": draw(st.sampled_from([1, 1, 10, 100, 300])), "mode": draw(st.sampled_from(modes)), "t": [draw(st.integers(-2, 3)), draw(st.integers(-2, 3))]}
+                                                for _ in range(npos)]}
+
+
+def run_chain(c):
+    """grids (collections with one to three axes) of points whose positions differ by up to a factor 300 in size: l = join(P, Q),
+    m = join(R, S) and then meet(l, m) - the second step sees what the first one returned.  Positions whose two lines coincide are
+    reported in the mask of LinearDependenceError and nowhere else; a skew pair of 3-space raises NotCoplanar; otherwise the result is
+    the exact point at every position"""
+    dim, shape = c["dim"], list(c["shape"])
+    if dim not in (2, 3) or int(np.prod(shape)) != len(c["pos"]) or not 1 <= len(shape) <= 3:
+        raise Skip("malformed")
+    n = dim + 1
+    pts = [[], [], [], []]
+    want = []
+    for q in c["pos"]:
+        v, mag = [int(x) for x in q["v"]], int(q["mag"])
+        if len(v) != 4 * dim or mag not in (1, 10, 100, 300) or len(q["t"]) != 2:
+            raise Skip("malformed")
+        A, B, Cc, D = [[Fraction(x * mag) for x in v[i * dim:(i + 1) * dim]] + [Fraction(1)] for i in range(4)]
+        if dim == 2 and q["mode"] == "equal":
+            t0, t1 = q["t"]
+            Cc = [A[i] + t0 * (B[i] - A[i]) for i in range(dim)] + [Fraction(1)]
+            D = [A[i] + t1 * (B[i] - A[i]) for i in range(dim)] + [Fraction(1)]
+        if dim == 3 and q["mode"] == "meeting":
+            Cc = A  # both lines pass through A
+        if A == B or Cc == D:
+            raise Skip("degenerate line")
+        if dim == 2:
+            l = [A[1] * B[2] - A[2] * B[1], A[2] * B[0] - A[0] * B[2], A[0] * B[1] - A[1] * B[0]]
+            m = [Cc[1] * D[2] - Cc[2] * D[1], Cc[2] * D[0] - Cc[0] * D[2], Cc[0] * D[1] - Cc[1] * D[0]]
+            x = [l[1] * m[2] - l[2] * m[1], l[2] * m[0] - l[0] * m[2], l[0] * m[1] - l[1] * m[0]]
+            want.append(("equal", None) if not any(x) else ("point", x))
+        else:
+            r4 = X.rank([A, B, Cc, D])
+            if r4 == 4:
+                want.append(("skew", None))
+            elif r4 == 2:
+                want.append(("equal", None))
+            else:
+                # coplanar and distinct: the common point is the null vector of the equations of both lines
+                if Cc == A:
+                    want.append(("point", A))
+                else:
+                    raise Skip("coplanar by accident")
+        for k, pnt in enumerate((A, B, Cc, D)):
+            pts[k].append([float(x) for x in pnt])
+    P, Q, R, S = [PointCollection(np.array(a).reshape(shape + [n])) for a in pts]
+    site = f"chain{dim}:grid{'x'.join(str(x) for x in shape)}"
+    l, f = call(site + ":join(P,Q)", join, P, Q)
+    if f:
+        return [f]
+    m, f = call(site + ":join(R,S)", join, R, S)
+    if f:
+        return [f]
+    ck = Checker()
+    kinds = [w[0] for w in want]
+    if dim == 3:
+        cp, f = call(site + ":is_coplanar", l.is_coplanar, m)
+        if f:
+            ck.add(f)
+        else:
+            exp = np.array([k != "skew" for k in kinds]).reshape(shape)
+            ck.check(np.asarray(cp).shape == exp.shape and bool(np.all(np.asarray(cp) == exp)), site + ":is_coplanar-mask", (np.asarray(cp).tolist(), exp.tolist()))
+    try:
+        x = meet(l, m)
+    except NotCoplanar:
+        ck.check("skew" in kinds, site + ":NotCoplanar-without-a-skew-pair", kinds)
+        return ck.result()
+    except LinearDependenceError as e:
+        dv = getattr(e, "dependent_values", None)
+        exp = np.array([k == "equal" for k in kinds]).reshape(shape)
+        if "skew" in kinds:
+            return ck.result()  # either error is documented for a collection that holds both
+        ck.check(dv is not None and np.asarray(dv).shape == exp.shape and bool(np.all(np.asarray(dv) == exp)), site + ":dependent_values-mask", (None if dv is None else np.asarray(dv).tolist(), exp.tolist()))
+        return ck.result()
+    except Exception as e:  # noqa: BLE001
+        ck.add(exc_fail(e, site + ":meet"))
+        return ck.result()
+    if not ck.check("skew" not in kinds and "equal" not in kinds, site + ":no-error-for-a-degenerate-position", kinds):
+        return ck.result()
+    arr = np.asarray(x.array)
+    if not ck.check(arr.shape == tuple(shape + [n]), site + ":shape", arr.shape):
+        return ck.result()
+    flat = arr.reshape(-1, n)
+    for i, w in enumerate(want):
+        if not ck.check(C.peq_all(flat[i], C.to_c(w[1]), 1, 1e-7), site + ":position-value", (i, flat[i].tolist(), [float(t) for t in w[1]])):
+            break
+    return ck.result()
+
+
+def chain_labels(c):
+    mags = [q["mag"] for q in c["pos"]]
+    out = [f"dim{c['dim']}", f"axes{len(c['shape'])}"]
+    if len(c["shape"]) >= 2 and max(mags) >= 100 * min(mags):
+        out.append("several-axes:magnitudes-differ-by-100")
+    ms = {q["mode"] for q in c["pos"]}
+    out += sorted(ms)
+    return out
+
+
 LAWS = [
     Law("lattice", None, run_lattice, enumerate=lattice_cases, enum_shards=6,
         exhaustive=lambda tier: {"name": "all pairs of {-1,0,1}^3 and {-1,0,1}^4 and all triples of {-1,0,1}^4 (zero vector included), for points (join) and hyperplanes (meet), through the collection API", "size": 2 * (729 + 6561 + 531441), "exhaustive": True},
@@ -651,4 +759,7 @@ LAWS = [
     Law("constructed", lambda tier: degen_case(tier), run_degen, degen_nontrivial, degen_labels, {"quick": 2500, "thorough": 40000},
         "constructed degeneracies with scrambled representatives, single and inside collections", shard=300,
         mandatory=("collection", "single", "collection-without-degenerate-position", "mixed-magnitude-collection", "narrow-integer-type")),
+    Law("chains_on_grids", lambda tier: chain_case(tier), run_chain, lambda c: len(c["pos"]) > 1, chain_labels, {"quick": 1500, "thorough": 25000},
+        "meet(join(P, Q), join(R, S)) on grids (1 to 3 collection axes) whose positions differ by up to a factor 300 in size: exact point at every position, mask of LinearDependenceError == positions with coinciding lines, NotCoplanar iff a skew pair",
+        shard=300, mandatory=("several-axes:magnitudes-differ-by-100", "equal", "skew")),
 ]
